@@ -689,9 +689,10 @@ PROPS["C08"] = {'claimed': True,
                'C08_exhausted_then_offline (the next turn then neither sends nor idles); C08_offline_then_probes (after the Offline event until a '
                'diagnostics reply is accepted: no further event - exactly one Offline -, every request is a payload-free Slave_Diag probe with 0x6C, '
                'and the turn before each probe was idle: no probe is repeated in its turn, one per DP cycle); C08_invariant_step (the engine: every '
-               'call from every state satisfying the invariant). Non-vacuity: C08_history_example, C08_master_example (computed histories showing '
-               'every clause). One-step theorems over all states kept: C08_first_offline, C08_first_probe, C08_toggle_after_accept, '
-               'C08_transmit_step.',
+               'call from every state satisfying the invariant) and C08_wire_monitor_accepts (the monitor as ONE predicate: ev_ok over the fold '
+               'ghost_of accepts every event of every history; the theorems above are its readings). Non-vacuity: C08_history_example, '
+               'C08_master_example (computed histories showing every clause). One-step theorems over all states kept: C08_first_offline, '
+               'C08_first_probe, C08_toggle_after_accept, C08_transmit_step.',
  'level_note': 'Trusted: Coq kernel, translator (gen/translate.py, gen/tr_dp.py), extraction + OCaml driver, Rust harness; hand model validated '
                'differentially, not verified.',
  'design_ref': 'DESIGN.md section 4, C08',
